@@ -116,6 +116,23 @@ template <class S> V3<S> ident(const V3<S>& a) { return a; }
 template <class S> M3<S> ident(const M3<S>& a) { return a; }
 template <class S> V3<S> project_xy(const V3<S>& a) { V3<S> r = a; r.a[2] = 0; return r; }
 
+// The same index loops over this scalar evaluate a formula with every monomial taken in absolute value: the result M is the
+// sum of the magnitudes of the monomials of the textbook formula, the quantity the classical forward error bound of a
+// floating-point evaluation is proportional to (|fl(p) - p| <= gamma_n * M, n = roundings on the longest monomial path).
+struct AbsQ {
+  f128 v;
+  AbsQ() : v(0) {}
+  AbsQ(int i) : v(i < 0 ? -static_cast<f128>(i) : static_cast<f128>(i)) {}
+  explicit AbsQ(f128 x) : v(fabsq(x)) {}
+  friend AbsQ operator+(AbsQ a, AbsQ b) { AbsQ r; r.v = a.v + b.v; return r; }
+  friend AbsQ operator-(AbsQ a, AbsQ b) { AbsQ r; r.v = a.v + b.v; return r; }
+  friend AbsQ operator*(AbsQ a, AbsQ b) { AbsQ r; r.v = a.v * b.v; return r; }
+  friend AbsQ operator/(AbsQ a, AbsQ b) { AbsQ r; r.v = a.v / b.v; return r; }
+  AbsQ operator-() const { return *this; }
+  AbsQ& operator+=(AbsQ b) { v += b.v; return *this; }
+  friend bool operator!=(AbsQ a, AbsQ b) { return a.v != b.v; }
+};
+
 // embeddings of the library's flat component arrays
 template <class S, class T> S emb(const std::array<T, 1>& a) { return static_cast<S>(a[0]); }
 template <class S, class T> V3<S> emb(const std::array<T, 2>& a) { return V3<S>{{static_cast<S>(a[0]), static_cast<S>(a[1]), static_cast<S>(0)}}; }
@@ -209,6 +226,9 @@ template <class T> struct ShapeName<PhQ::Dyad<T>> { static constexpr const char*
 enum { BASIS = 0, GRID = 1, INT = 2, REAL = 3, NCLS = 4 };
 static const char* const kCls[NCLS] = {"basis", "grid", "int", "real"};
 enum : unsigned { F_DIVISIBLE = 1, F_NOREAL = 2, F_NONZERO_B = 4 };
+// number of roundings on the longest monomial path of the library's formula (0: a copy, must be exact)
+constexpr unsigned DEPTH(unsigned n) { return n << 8; }
+constexpr int depth_of(unsigned flags) { return static_cast<int>((flags >> 8) & 15u); }
 static const double kK = 4.0;
 
 template <class T> struct Ctx {
@@ -227,7 +247,8 @@ struct OpStat {
   bool expect[NCLS] = {false, false, false, false};
   long long obs[NCLS] = {0, 0, 0, 0};
   long long slots = 0;
-  double max_cond = 0, max_ulps_wellcond = 0;
+  double max_cond = 0, max_ulps_wellcond = 0, max_over_uM = 0;
+  long long fallback = 0;
   template <class T> void open(Ctx<T>& C, const std::string& o, std::initializer_list<int> classes) {
     op = o;
     tname = Num<T>::name;
@@ -247,6 +268,8 @@ struct OpStat {
     if (obs[REAL]) {
       C.R.maxi("max_cond|" + op + "|" + tname, max_cond);
       C.R.maxi("max_ulps_wellcond|" + op + "|" + tname, max_ulps_wellcond);
+      C.R.maxi("max_err_over_uM|" + op + "|" + tname, max_over_uM);
+      C.R.count("needed_forward_error_bound|" + op + "|" + tname, fallback);
     }
   }
 };
@@ -280,21 +303,47 @@ static void judge_int(Ctx<T>& C, OpStat& st, int cls, const std::array<T, NO>& g
   ++st.obs[cls];
 }
 
+// Real workloads.  Accepted: |got - exact| <= 4*(ulp_T(exact) + Delta)  [the design's conditioning-aware bound], or, where the
+// terms of the formula cancel among themselves so that Delta (sensitivity to the inputs) does not see the size of the
+// intermediate products, the a-priori forward error bound of the textbook formula evaluated in T:
+// |got - exact| <= gamma_n * M, gamma_n = n*u/(1 - n*u), u = eps_T/2, n = depth, M = sum of |monomials| (binary128).
+// depth 0 means the operation copies components: the result must be exactly the input.
 template <class T, size_t NO, class D>
-static void judge_real(Ctx<T>& C, OpStat& st, const std::array<T, NO>& got, const std::array<f128, NO>& want,
-                       const std::array<f128, NO>& delta, D&& detail) {
+static void judge_real(Ctx<T>& C, OpStat& st, int depth, const std::array<T, NO>& got, const std::array<f128, NO>& want,
+                       const std::array<f128, NO>& delta, const std::array<f128, NO>& M, D&& detail) {
+  const f128 u = static_cast<f128>(std::numeric_limits<T>::epsilon()) / 2;
   for (size_t k = 0; k < NO; ++k) {
     const double ce = cond_error<T>(got[k], want[k], delta[k]);
-    if (ce > st.max_cond || ce != ce) st.max_cond = ce;
-    const double u = ulps<T>(got[k], want[k]);
-    if (delta[k] <= ulp_at<T>(want[k]) && u > st.max_ulps_wellcond) st.max_ulps_wellcond = u;
-    if (!(ce <= kK)) {
-      C.R.violation(vkey<T>(st.op, k), J().s("workload", "real").s("rule", "|got-exact| <= 4*(ulp + Delta)").raw("inputs", detail())
-                                           .raw("got", jarr(got)).raw("exact", jquads(want)).raw("Delta", jquads(delta))
-                                           .d("error_in_units_of_ulp_plus_Delta", ce).d("error_ulps", u).str());
-    } else if (u > 0.5 && C.R.want_sample()) {
+    const double ul = ulps<T>(got[k], want[k]);
+    bool ok;
+    if (depth == 0) {
+      ok = static_cast<f128>(got[k]) == want[k];
+    } else {
+      ok = ce <= kK;
+      if (ce > st.max_cond || ce != ce) st.max_cond = ce;
+      if (delta[k] <= ulp_at<T>(want[k]) && ul > st.max_ulps_wellcond) st.max_ulps_wellcond = ul;
+      const f128 err = fabsq(static_cast<f128>(got[k]) - want[k]);
+      if (M[k] > 0 && err == err) {
+        const double r = static_cast<double>(err / (u * M[k]));
+        if (r > st.max_over_uM) st.max_over_uM = r;
+      }
+      if (!ok && got[k] == got[k]) {
+        const f128 gamma = depth * u / (1 - depth * u);
+        if (err <= gamma * M[k]) {
+          ok = true;
+          ++st.fallback;
+        }
+      }
+    }
+    if (!ok) {
+      C.R.violation(vkey<T>(st.op, k), J().s("workload", "real")
+                                           .s("rule", depth ? "|got-exact| <= 4*(ulp + Delta) or <= gamma_depth * sum|monomials|" : "copy must be exact")
+                                           .i("depth", depth).raw("inputs", detail()).raw("got", jarr(got)).raw("exact", jquads(want))
+                                           .raw("Delta", jquads(delta)).raw("sum_abs_monomials", jquads(M))
+                                           .d("error_in_units_of_ulp_plus_Delta", ce).d("error_ulps", ul).str());
+    } else if (ul > 0.5 && C.R.want_sample()) {
       C.R.sample(J().s("op", st.op).s("numeric_type", Num<T>::name).i("slot", static_cast<long long>(k)).raw("inputs", detail())
-                     .num("got", got[k]).q("exact", want[k]).q("Delta", delta[k]).d("error_ulps", u)
+                     .num("got", got[k]).q("exact", want[k]).q("Delta", delta[k]).d("error_ulps", ul)
                      .d("error_in_units_of_ulp_plus_Delta", ce).str());
     }
   }
@@ -418,7 +467,14 @@ static void run_binary(Ctx<T>& C, const std::string& op, unsigned flags, LibF li
         for (size_t i = 0; i < NB; ++i) pb[i] = x[NA + i];
         return rf::flat<NO>(ref(rf::emb<f128>(pa), rf::emb<f128>(pb)));
       }, in, r0, delta);
-      judge_real<T, NO>(C, st, got, r0, delta, detail);
+      std::array<f128, NA> qa;
+      std::array<f128, NB> qb;
+      for (size_t i = 0; i < NA; ++i) qa[i] = static_cast<f128>(a[i]);
+      for (size_t i = 0; i < NB; ++i) qb[i] = static_cast<f128>(b[i]);
+      const auto am = rf::flat<NO>(ref(rf::emb<rf::AbsQ>(qa), rf::emb<rf::AbsQ>(qb)));
+      std::array<f128, NO> M;
+      for (size_t k = 0; k < NO; ++k) M[k] = am[k].v;
+      judge_real<T, NO>(C, st, depth_of(flags), got, r0, delta, M, detail);
     }
     if constexpr (has_gen) {
       const auto s = canon(out);
@@ -493,7 +549,7 @@ static void run_binary(Ctx<T>& C, const std::string& op, unsigned flags, LibF li
 
 // unary operation XA -> anything with components
 template <class T, class XA, class LibF, class RefF, class GenF>
-static void run_unary(Ctx<T>& C, const std::string& op, LibF lib, RefF ref, GenF gen) {
+static void run_unary(Ctx<T>& C, const std::string& op, unsigned flags, LibF lib, RefF ref, GenF gen) {
   constexpr size_t NA = slots_of<XA>;
   using AA = std::array<T, NA>;
   using Out = std::decay_t<decltype(lib(std::declval<const XA&>()))>;
@@ -522,7 +578,12 @@ static void run_unary(Ctx<T>& C, const std::string& op, LibF lib, RefF ref, GenF
         for (size_t i = 0; i < NA; ++i) pa[i] = x[i];
         return rf::flat<NO>(ref(rf::emb<f128>(pa)));
       }, in, r0, delta);
-      judge_real<T, NO>(C, st, got, r0, delta, detail);
+      std::array<f128, NA> qa;
+      for (size_t i = 0; i < NA; ++i) qa[i] = static_cast<f128>(a[i]);
+      const auto am = rf::flat<NO>(ref(rf::emb<rf::AbsQ>(qa)));
+      std::array<f128, NO> M;
+      for (size_t k = 0; k < NO; ++k) M[k] = am[k].v;
+      judge_real<T, NO>(C, st, depth_of(flags), got, r0, delta, M, detail);
     }
     if constexpr (has_gen) {
       const auto s = canon(out);
